@@ -24,7 +24,7 @@ def sh(cmd, cwd, timeout=3600, env=ENV):
 
 
 def clean(wt):
-    sh("git checkout -q -- . && git clean -fdq", wt)
+    sh("git reset -q --hard && git clean -fdq", wt)
 
 
 def sync(wt):
@@ -62,12 +62,16 @@ def find_dest(sd, wt, patch_dirs):
 
 
 def main():
-    args = [a for a in sys.argv[1:] if not a.startswith("--")]
+    args = [a for i, a in enumerate(sys.argv[1:], 1) if not a.startswith("--") and sys.argv[i - 1] not in ("--tag", "--only")]
     out, wt = args[0], args[1]
     only = None
     for i, a in enumerate(sys.argv):
         if a == "--only":
             only = set(sys.argv[i + 1].split(","))
+    tag = ""
+    for i, a in enumerate(sys.argv):
+        if a == "--tag":
+            tag = sys.argv[i + 1]
     detect_only = "--detect-only" in sys.argv
     force = "--force" in sys.argv
     for sd in sorted(glob.glob(os.path.join(out, "C[0-9][0-9]-[0-9]*"))):
@@ -77,6 +81,8 @@ def main():
         prop = name.split("-")[0]
         if only and prop not in only:
             continue
+        if tag:  # later rounds reuse the authors' numbering: keep them apart
+            name = prop + "-" + tag + "-" + name.split("-", 1)[1]
         dst = os.path.join(ROOT, "seeded", name)
         meta_p = os.path.join(dst, "meta.json")
         meta = json.load(open(meta_p)) if os.path.exists(meta_p) else {}
